@@ -1,3 +1,4 @@
+import BS.Lemmas.Lift
 import BS.Lemmas.EncTrav
 /-
   C04 — the callback sequence of an L2 decoder is the in-order traversal of the decoded structure.
@@ -189,5 +190,34 @@ example : (travTx 10 exSegwit).length = 10 := by decide
 /-- a truncated transaction still made callbacks, all inside the input -/
 example : (decTransaction ⟨10, (encTx exSegwit).take 63⟩).trace.length = 7 ∧
     (decTransaction ⟨10, (encTx exSegwit).take 63⟩).res = .err .moreBytesNeeded := by decide
+
+/-! ## L1 corollaries (generated by tools/genlift.py) -/
+section L1
+open BS.Ref BS.Lift
+
+/-- on the model of the code: the recording visitor receives exactly the in-order traversal of the encoded value -/
+theorem C04_L1_ok_transaction (b : Nat) (t : TxS) (r : Bytes) (ht : t.WF) (hl : (encTx t ++ r).length < 2 ^ 62) :
+    ((Transaction.visit ⟨b, encTx t ++ r⟩) recorder []).1.reverse = travTx b t := by
+  rw [recorder_eq (fun v st => refine_transaction _ (by simpa [Slice.len] using hl) v st)]
+  simpa using C04_ok_transaction b t r ht
+
+theorem C04_L1_ok_block (b : Nat) (k : BlockS) (r : Bytes) (hk : k.WF) (hl : (encBlock k ++ r).length < 2 ^ 62) :
+    ((Block.visit ⟨b, encBlock k ++ r⟩) recorder []).1.reverse = travBlock b k := by
+  rw [recorder_eq (fun v st => refine_block _ (by simpa [Slice.len] using hl) v st)]
+  simpa using C04_ok_block b k r hk
+
+/-- on the model of the code, for every input (valid or not): every slice handed to the recording visitor lies inside
+    the input, with the input's bytes -/
+theorem C04_L1_events_inside_block (s : Slice) (hs : s.len < 2 ^ 62) :
+    EventsInside ((Block.visit s) recorder []).1.reverse s := by
+  rw [recorder_eq (fun v st => refine_block s hs v st)]
+  simpa using C04_events_inside_block s
+
+theorem C04_L1_events_inside_transaction (s : Slice) (hs : s.len < 2 ^ 62) :
+    EventsInside ((Transaction.visit s) recorder []).1.reverse s := by
+  rw [recorder_eq (fun v st => refine_transaction s hs v st)]
+  simpa using C04_events_inside_transaction s
+
+end L1
 
 end BS
